@@ -77,6 +77,9 @@ var NAMES = ["p","q"];
 function OWN(o,n){
   var d = Object.getOwnPropertyDescriptor(o,n);
   if (d === undefined) return {k:"none"};
+  // 8.10.4 FromPropertyDescriptor: exactly value/writable or get/set, plus enumerable and configurable
+  var ks = Object.keys(d).sort().join();
+  if (ks !== "configurable,enumerable,value,writable" && ks !== "configurable,enumerable,get,set") return {k:"descriptor fields " + ks};
   if ("value" in d || "writable" in d) return {k:"data", v:ENC(d.value), w:d.writable, e:d.enumerable, c:d.configurable};
   return {k:"acc", g:ENC(d.get), s:ENC(d.set), e:d.enumerable, c:d.configurable};
 }
